@@ -782,6 +782,24 @@ def body(ck):
                 j["raised"] = f"{type(e).__name__}: {str(e)[:200]}"
                 py_violation("C14/sample/Discrete-mask-raises", "masked sample raised", j)
 
+    # ---- sparse masks on large Discrete spaces: a masked index must have probability exactly zero, not merely a small one
+    #      (many draws; with n - k masked indices any leak of relative weight w shows with probability ~ w * (n - k) / k per draw)
+    for n, k in ([(50_000, 1), (200_000, 2)] if quick else [(50_000, 1), (200_000, 2), (4_096, 1), (1_000_000, 3), (65_537, 1)]):
+        allowed = sorted(int(x) for x in rng.choice(n, size=k, replace=False))
+        mask = np.zeros(n, dtype=bool); mask[allowed] = True
+        seed = int(rng.integers(0, 2 ** 31)); draws = 512
+        j = {"check": "masked sample, sparse mask", "space": f"Discrete({n})", "allowed_indices": allowed, "keys": f"jr.split(jr.key({seed}), {draws})",
+             "expect": "every sample is one of the allowed indices"}
+        ck.current_case = j
+        sp_big = Discrete(n)
+        vs = np.asarray(jax.vmap(lambda kk: sp_big.sample(key=kk, mask=jnp.asarray(mask)))(jr.split(jr.key(seed), draws)))
+        ck.count("masked-sample-sparse", draws); ck.evaluations += draws
+        ck.case_seen(("sparse-mask", n, k))
+        bad = [(i, int(v)) for i, v in enumerate(vs) if int(v) not in allowed]
+        if bad:
+            j["lerax_samples_outside_the_mask[(key index, sample)]"] = bad[:10]; j["count"] = len(bad)
+            py_violation("C14/sample/Discrete-mask", f"masked sample returned a masked index ({len(bad)} of {draws} draws)", j)
+
     # ---- equality and hashing
     pairs = list(CORPUS_PAIRS)
     for a, _, _ in built[len(CORPUS):] + built[:len(CORPUS)]:
